@@ -214,6 +214,18 @@ ROUND11 = {
 }
 
 
+ROUND12 = {
+    "C01": " Round 12: an interface given a parameter vector of its own.",
+    "C02": " Round 12: lineage event rates written in `volume`, plain and safe lineage interface.",
+    "C04": " Round 12: tolerances tighter than the default on a grid that needs the retry ladder.",
+    "C05": " Round 12: interleaved repeated reactants against a generator built from the specification's closed forms.",
+    "C08": " Round 12: the same definition built at once and step by step (species in another order).",
+    "C10": " Round 12: accounting against the specification's matrices; delayed species shared with the immediate part.",
+    "C15": " Round 12: time grids A, B, A in three trajectory orders.",
+    "C18": " Round 12: method=None means the default scheme.",
+}
+
+
 def main():
     props = [json.loads(l) for l in open(os.path.join(HERE, "properties.jsonl"))]
     checks, na = [], []
@@ -221,7 +233,7 @@ def main():
         pid = p["id"]
         if pid in CLAIMED:
             c = dict(CLAIMED[pid])
-            c["text"] = c["text"] + ROUND4.get(pid, "") + ROUND5.get(pid, "") + ROUND6.get(pid, "") + ROUND8.get(pid, "") + ROUND9.get(pid, "") + ROUND10.get(pid, "") + ROUND11.get(pid, "")
+            c["text"] = c["text"] + ROUND4.get(pid, "") + ROUND5.get(pid, "") + ROUND6.get(pid, "") + ROUND8.get(pid, "") + ROUND9.get(pid, "") + ROUND10.get(pid, "") + ROUND11.get(pid, "") + ROUND12.get(pid, "")
             checks.append({
                 "property_id": pid,
                 "quick_cmd": "./check %s quick" % pid,
